@@ -55,8 +55,9 @@ ASSUMPTIONS = [
     "edges only for univariate panels; with columns=None the single column is labelled 0",
     "the long table is a relation: its decoder orders variables by identifier and ignores row "
     "order and column order; the multi-index frame is decoded by labels",
-    "instances and time points are labelled 0..n-1 (RangeIndex); other instance/time labels "
-    "are outside the statement",
+    "in the graph exploration instances and time points are labelled 0..n-1; non-default "
+    "instance labels (descending ints, unsorted strings, shuffled) are covered by kind=instlabels "
+    "on the label-carrying paths nested<->multi-index->3d/nested and nested->long",
     "dtype of the produced containers is not judged, only numeric equality of every value",
     "conversions of frames mixing nested and primitive columns are outside the statement; "
     "only the predicates are judged on them",
@@ -93,6 +94,12 @@ def gen_cases(tier, seed):
             k += 1
         if C == 1:
             yield dict(kind="series2d", I=I, T=T, fam=(k + seed) % NFAM)
+    for (I, C, T) in shapes:
+        if I >= 2 and T <= 3:
+            for lk in sorted(INSTLABELS):
+                for pth in INSTPATHS:
+                    yield dict(kind="instlabels", I=I, C=C, T=T, labels=lk, path=pth,
+                               fam=(k + seed) % NFAM)
     for (I, C, T) in shapes:
         for nk in NAMEKINDS:
             for st in STARTS:
@@ -808,4 +815,72 @@ def run_case(case):
         return _run_checkx(case, res)
     if kind == "series2d":
         return _run_series2d(case, res)
+    if kind == "instlabels":
+        return _run_instlabels(case, res)
     raise ValueError(kind)
+
+
+INSTLABELS = {"desc": lambda I: [9 - 2 * i for i in range(I)],
+              "str": lambda I: ["q", "b", "k", "a"][:I],
+              "shuffled": lambda I: [(i * 2 + 1) % I if I % 2 else (I - 1 - i) for i in range(I)]}
+INSTPATHS = [["n>mi", "mi>n"], ["n>mi", "mi>3d"], ["n>3d"], ["n>mi", "mi>n", "n>mi", "mi>3d"],
+             ["n>mi", "mi>nA"], ["n>long"]]
+
+
+def _run_instlabels(case, res):
+    """panels whose instances carry non-default row labels: values and INSTANCE ORDER must
+    survive every label-carrying path (the statement promises values, shape and order, not the
+    instance labels themselves, so labels are not judged)"""
+    import sktime.utils.data_processing as dp
+
+    I, C, T = case["I"], case["C"], case["T"]
+    labs = INSTLABELS[case["labels"]](I)
+    vals = [[[_value(i, c, t, case["fam"]) for t in range(T)] for c in range(C)] for i in range(I)]
+    names = ["b", "a", "c"][:C]
+    X = pd.DataFrame({names[c]: _obj_col([pd.Series(vals[i][c]) for i in range(I)])
+                      for c in range(C)}, columns=names)
+    X.index = pd.Index(labs)
+    cur, rep = X, "n"
+    path = case["path"]
+    for step in path:
+        fn = {"n>mi": lambda Z: dp.from_nested_to_multi_index(Z, instance_index="case",
+                                                              time_index="t"),
+              "mi>n": lambda Z: dp.from_multi_index_to_nested(Z, instance_index="case"),
+              "mi>nA": lambda Z: dp.from_multi_index_to_nested(Z, instance_index="case",
+                                                               cells_as_numpy=True),
+              "mi>3d": lambda Z: dp.from_multi_index_to_3d_numpy(Z, instance_index="case",
+                                                                 time_index="t"),
+              "n>3d": dp.from_nested_to_3d_numpy,
+              "n>long": dp.from_nested_to_long}[step]
+        o = call(fn, cur)
+        res.transitions += 1
+        if not o.ok:
+            res.violate("instlabels:%s:raises" % step, "conversion raised for a panel with "
+                        "non-default instance labels", observed=dict(path=path, error=o.brief()))
+            return res
+        cur, rep = o.value, step.split(">")[1]
+    res.states += len(path)
+    res.nt(("instlabels", I, C, T, case["labels"], tuple(path)))
+    res.outcome("instlabels:" + rep)
+    H = dict(path=path, labels=labs)
+    if rep in ("n", "nA"):
+        got = [[[float(v) for v in np.asarray(cur.iat[i, c])] for c in range(C)] for i in range(I)]
+        glabs = list(cur.index)
+    elif rep == "3d":
+        got = [[[float(v) for v in cur[i, c]] for c in range(C)] for i in range(I)]
+        glabs = None
+    elif rep == "mi":
+        glabs = list(dict.fromkeys(cur.index.get_level_values(0)))
+        got = [[[float(cur.loc[(lab, t), names[c]]) for t in range(T)] for c in range(C)]
+               for lab in glabs]
+    else:  # long table: a relation keyed by the instance label
+        col_i, col_t, col_d, col_v = list(cur.columns)
+        got = [[[float(cur[(cur[col_i] == labs[i]) & (cur[col_d] == names[c]) &
+                           (cur[col_t] == t)][col_v].iloc[0]) for t in range(T)]
+                for c in range(C)] for i in range(I)]
+        glabs = None
+    if got != vals:
+        res.violate("instlabels:%s:order" % "/".join(path), "values or instance order changed for "
+                    "a panel whose instances carry non-default labels", expected=vals,
+                    observed=dict(values=got, **H))
+    return res
